@@ -313,6 +313,8 @@ async def run_h1(env: Any, case: Dict[str, Any], app: Any) -> Dict[str, Any]:
             if step["close_first"]:
                 nreq += 1
                 tm.must_close_at = t0 + step["d1"]
+                await env.sleep(4 * EPS)  # (just past the instant: at it, nothing is late yet)
+                await env.settle0()
                 tm.check(where + " (after the closing response)")
                 break
             nreq += 2
@@ -392,7 +394,7 @@ async def run_h1(env: Any, case: Dict[str, Any], app: Any) -> Dict[str, Any]:
         # let the idle timer run out: the server must close at exactly idle-start + T
         exp = tm.expected_close()
         if exp is not None:
-            await env.sleep(max(0.0, exp - env.now()))
+            await env.sleep(max(0.0, exp - env.now()) + 4 * EPS)  # (just past the deadline)
             await env.settle0()
             tm.check("end of history")
             if nreq:
@@ -577,7 +579,7 @@ async def run_h2(env: Any, case: Dict[str, Any], app: Any) -> Dict[str, Any]:
     if lost_at is None and not conn.server_gone:
         exp = tm.expected_close()
         if exp is not None:
-            await env.sleep(max(0.0, exp - env.now()))
+            await env.sleep(max(0.0, exp - env.now()) + 4 * EPS)  # (just past the deadline)
             await env.settle0()
             tm.check("end of history")
             if n:
